@@ -12,6 +12,7 @@ mod w2t;
 mod w3;
 mod w4;
 mod w5;
+mod w7;
 
 use crate::core::*;
 use crate::driver::*;
@@ -32,6 +33,7 @@ macro_rules! with_world {
             "W5" => $func::<w5::W5>($($arg),*),
             "W4" => $func::<w4::W4>($($arg),*),
             "W1A" => $func::<w1a::W1A>($($arg),*),
+            "W7" => $func::<w7::W7>($($arg),*),
             other => {
                 eprintln!("unknown world {other}");
                 std::process::exit(2);
@@ -177,6 +179,30 @@ fn plan(prop: &str, tier: Tier) -> Option<Plan> {
                 "outputs are compared as canonicalised JSON: arrays that come out of hash iteration (match traces, trace children, routes) are sorted, everything else keeps its order",
                 "at most 12 rules with examples per call, so the 'first ten' maps are not truncated differently by hash order",
                 "the live pipeline is the proxy sequence of W5: request-time status, then response-time status / headers / body / log with the backend code (example's code or 200)",
+            ],
+        },
+        "C07" => Plan {
+            level: "exploration",
+            batches: vec![
+                b("W7", "hostile", 20000, 600000),
+                b("W4", "hostile", 2000, 50000),
+                b("W2", "faults", 3000, 60000),
+                b("W2", "plain", 500, 10000),
+                b("W2", "codec", 300, 6000),
+                b("W2T", "docs", 1500, 30000),
+                b("W2T", "bytes", 8000, 200000),
+                b("W2T", "big", 8, 48),
+                b("W2D", "dom", 1500, 30000),
+                b("W3", "ops", 3000, 60000),
+                b("W1", "hist", 1000, 20000),
+                b("W1A", "analyses", 1000, 20000),
+                b("W5", "handoff", 5000, 100000),
+                b("W5", "fold", 5000, 100000),
+            ],
+            assumptions: vec![
+                "monitor, not a model: each library call runs under catch_unwind in a child process with a watchdog; a panic in an extern \"C\" function aborts the child and is attributed to the run by the driver",
+                "hostile values are sampled from fixed pools of known-dangerous shapes plus the generators of the other worlds; this is not coverage-guided fuzzing",
+                "sim profile only (optimised, overflow checks on for the library); allocation failure is not injected",
             ],
         },
         _ => return None,
